@@ -896,7 +896,10 @@ Inductive lobs :=
 
 Record c19case := mk_c19case {
   lc_texts : list (program * list diag);          (* per text id: the dumped tree and the parser's errors *)
-  lc_history : list (lreq * lobs) }.
+  lc_history : list (lreq * lobs);
+  lc_wire : bool }.      (* the same history through the `numscript lsp` process (stdin / stdout, Content-Length
+                            framing): its stream of responses and notifications equals the in-process one
+                            (true when the case was not replayed over the wire) *)
 
 Definition analysis := option document.           (* None: the analysis panicked *)
 
@@ -1069,7 +1072,8 @@ Definition judge_C19 (c : c19case) : bool * bool * bool :=
    && forallb (fun o => match o with LPanic => false | _ => true end) obs
    && nav_all (map (fun t : program * list diag => match snd t with [] => Some (nav_info_of (fst t)) | _ => None end) (lc_texts c)) [] (lc_history c)
    (* the hypothesis of C19_navigation_exact: in a tree parsed without error every node's range encloses the targets below it *)
-   && forallb (fun t : program * list diag => match snd t with [] => nested (fst t) | _ => true end) (lc_texts c),
+   && forallb (fun t : program * list diag => match snd t with [] => nested (fst t) | _ => true end) (lc_texts c)
+   && lc_wire c,
    negb (Nat.eqb (List.length (lc_history c)) 0)).
 
 (* ======================= C20: the command line ======================= *)
